@@ -43,6 +43,8 @@ structure SyncReq where
   allowed : List (Nat × List (Option Int))
   /-- value lane: every value held since the request -/
   allowedVal : List Int
+  /-- the remote asked to unlink afterwards: the answer may legitimately never come (or come after `unlinked`) -/
+  voidable : Bool := false
   deriving Repr
 
 structure Pair where
@@ -182,14 +184,20 @@ def Mon.frame (m : Mon) (f : Frame) : Mon × Option String :=
     else
       -- an explicit unlink answers the oldest outstanding unlink request: sync requests made before it are void
       match p.unlinkOps with
-      | tu :: rest =>
-        (m.setPair f.r f.lane { p with isOpen := false, unlinkOps := rest, syncs := p.syncs.filter (fun sq => sq.t0 > tu) }, none)
-      | [] => (m.setPair f.r f.lane { p with isOpen := false, syncs := [] }, none)
+      | _ :: rest => (m.setPair f.r f.lane { p with isOpen := false, unlinkOps := rest }, none)
+      | [] => (m.setPair f.r f.lane { p with isOpen := false, syncs := p.syncs.map (fun sq => { sq with voidable := true }) }, none)
   | .synced =>
     if !p.isOpen then (m, some "synced-outside-link") else
-    match p.syncs with
-    | [] => (m, some "synced-not-requested")
-    | sq :: rest =>
+    -- the answer is attributed to the oldest request that cannot have been voided by an unlink, else to the oldest
+    let pick : Option (SyncReq × List SyncReq) :=
+      match p.syncs.find? (fun sq => !sq.voidable) with
+      | some sq => some (sq, p.syncs.eraseP (fun x => !x.voidable))
+      | none => match p.syncs with
+        | sq :: rest => some (sq, rest)
+        | [] => none
+    match pick with
+    | none => (m, some "synced-not-requested")
+    | some (sq, rest) =>
       let p' := { p with syncs := rest, syncedOnce := true, syncedAt := m.t }
       if f.lane = 0 then
         -- the last value received must be one the lane held since the request
@@ -249,7 +257,7 @@ def Mon.final (m : Mon) : Option String :=
       | none => none
       | some tl =>
         if !p.isOpen then some "linked-remote-never-told-linked" else
-        if !p.syncs.isEmpty then some "sync-request-never-answered" else
+        if p.syncs.any (fun sq => !sq.voidable) then some "sync-request-never-answered" else
         if lane = 0 then
           -- freshness: a change made after the link settled must have arrived
           match m.valHist.getLast? with
@@ -319,6 +327,7 @@ def Mon.step (m : Mon) (line : String) (out : String) : Mon × Option String :=
       | ["unlink", r, lane] =>
         let r := r.toNat?.getD 0; let l := laneId lane; let p := m1.pair r l
         m1.setPair r l { p with linkedAt := none, implicitT0 := none,
+                                syncs := p.syncs.map (fun sq => { sq with voidable := true }),
                                 unlinkOps := if p.linkedAt.isSome then p.unlinkOps ++ [m1.t] else p.unlinkOps }
       | ["cmd", r, "cmd", body] =>
         let r := r.toNat?.getD 0
